@@ -7,6 +7,7 @@ From Coq Require Import List NArith ZArith Bool Lia ZifyN ZifyNat ZifyBool.
 Import ListNotations.
 From GM Require Import Base.Topic Base.Msg Model.CodecBase Model.SubTrie Model.Queue Model.Redis Gen.Consts
   Model.PersistEnc Proofs.CodecBaseP.
+From GM Require Proofs.TopicP.
 Open Scope N_scope.
 
 Ltac Zify.zify_post_hook ::= Z.div_mod_to_equations.
@@ -471,4 +472,46 @@ Proof.
   destruct (shorter (s ++ rest) (len s mod 65536)); [discriminate|].
   intros E. apply Ok_inj in E. apply (f_equal fst) in E. cbn [fst] in E.
   apply (f_equal len) in E. rewrite takeN_len in E. lia.
+Qed.
+
+(* ---------------------------------------------------------------- elem_eqb is equality of the stored bytes, both ways *)
+Lemma list_eqb_eq {A} (eqb : A -> A -> bool) (H : forall x y, eqb x y = true -> x = y) :
+  forall a b, list_eqb eqb a b = true -> a = b.
+Proof.
+  induction a as [|x a IH]; destruct b as [|y b]; cbn [list_eqb]; try discriminate; [reflexivity|].
+  intros E. apply andb_prop in E. destruct E as [E1 E2]. f_equal; [now apply H|now apply IH].
+Qed.
+
+Lemma pair_eqb_eq (x y : str * str) : str_eqb (fst x) (fst y) && str_eqb (snd x) (snd y) = true -> x = y.
+Proof.
+  destruct x as [x1 x2], y as [y1 y2]. cbn [fst snd]. intros E. apply andb_prop in E. destruct E as [A B].
+  apply TopicP.str_eqb_eq in A. apply TopicP.str_eqb_eq in B. now subst.
+Qed.
+
+Lemma msg_eqb_eq a b : msg_eqb a b = true -> a = b.
+Proof.
+  unfold msg_eqb. destruct a as [d1 q1 r1 t1 p1 i1 c1 k1 e1 f1 s1 b1 u1], b as [d2 q2 r2 t2 p2 i2 c2 k2 e2 f2 s2 b2 u2].
+  simpl. intros E.
+  repeat match type of E with (_ && _ = true) => apply andb_prop in E; let E2 := fresh "E" in destruct E as [E E2] end.
+  repeat match goal with
+         | H : Bool.eqb _ _ = true |- _ => apply Bool.eqb_prop in H
+         | H : N.eqb _ _ = true |- _ => apply N.eqb_eq in H
+         | H : str_eqb _ _ = true |- _ => apply TopicP.str_eqb_eq in H
+         end.
+  match goal with H : list_eqb N.eqb _ _ = true |- _ => apply (list_eqb_eq N.eqb (fun x y => proj1 (N.eqb_eq x y))) in H end.
+  match goal with H : list_eqb _ _ _ = true |- _ => apply (list_eqb_eq _ pair_eqb_eq) in H end.
+  subst. reflexivity.
+Qed.
+
+(* the converse of stored_bytes_equal_elem_eqb: what the store model treats as equal is stored as the same bytes *)
+Lemma elem_eqb_same_bytes a b : elem_eqb a b = true -> enc_elem a = enc_elem b.
+Proof.
+  unfold elem_eqb. intros E. apply andb_prop in E. destruct E as [E Eb]. apply andb_prop in E. destruct E as [Ea Ee].
+  apply N.eqb_eq in Ea. unfold enc_elem. rewrite Ea.
+  assert (Hx : e_expiry a = e_expiry b).
+  { unfold optN_eqb in Ee. destruct (e_expiry a), (e_expiry b); try discriminate; [apply N.eqb_eq in Ee; now subst|reflexivity]. }
+  rewrite Hx. do 4 f_equal.
+  unfold qbody_eqb in Eb. destruct (e_body a) as [m|p], (e_body b) as [m'|p']; try discriminate.
+  - apply msg_eqb_eq in Eb. now subst.
+  - apply N.eqb_eq in Eb. now subst.
 Qed.
